@@ -609,6 +609,23 @@ def coll_consecutive():
     return ds
 
 
+def coll_one_gap():
+    """the boundary of "non-consecutive": strings 0, 1, 3 -- exactly ONE gap (highest index == number of strings), and no other
+    type sparser than that; the Block handler must still build its index map (string 3 exists, string 2 does not)."""
+    ds = DeviceDescriptorCollection()
+    with ds.DeviceDescriptor() as d:
+        d.bcdUSB = 2.00; d.idVendor = 0x1234; d.idProduct = 0x4567
+        d.iManufacturer = "Manu"
+        d.bNumConfigurations = 1
+    with ds.ConfigurationDescriptor() as cfg:
+        with cfg.InterfaceDescriptor() as i:
+            i.bInterfaceNumber = 0
+            with i.EndpointDescriptor() as e:
+                e.bEndpointAddress = 0x81; e.wMaxPacketSize = 64
+    ds.add_descriptor(get_string_descriptor("third"), index=3)
+    return ds
+
+
 def coll_big():
     """device + a 130-byte configuration + strings incl. exactly 64 and 128 bytes + sparse string indices + BOS (type 15)
     + a type-0x22 report descriptor of 32 bytes."""
@@ -794,9 +811,9 @@ def make_plumbing_stride(via, coll_fn, maxpkt, kwargs=None, open_cover_depth=Non
 
 
 def contracts(tier):
-    only = os.environ.get("HWV_C09_ONLY")              # development aid: restrict to units whose name contains this
+    only = os.environ.get("HWV_C09_ONLY")              # development aid: restrict to "unit/cfg" names containing this
     for unit, cfg, fn in _contracts(tier):
-        if not only or only in unit:
+        if not only or only in f"{unit}/{cfg}":
             yield (unit, cfg, fn)
 
 
@@ -806,7 +823,10 @@ def _contracts(tier):
         yield ("GetDescriptorHandlerBlock", f"small_maxpkt{mp}", make_block(coll_small, mp))
     for mp in ((64,) if quick else (8, 16, 32, 64)):
         yield ("GetDescriptorHandlerBlock", f"consecutive_maxpkt{mp}", make_block(coll_consecutive, mp))
+    yield ("GetDescriptorHandlerBlock", "one_gap_maxpkt16", make_block(coll_one_gap, 16))
     if not quick:
+        yield ("GetDescriptorHandlerDistributed", "one_gap_maxpkt16", make_distributed(coll_one_gap, 16))
+        yield ("GetDescriptorHandlerBlock", "one_gap_maxpkt64", make_block(coll_one_gap, 64))
         for mp in (8, 16, 32, 64):
             yield ("GetDescriptorHandlerBlock", f"big_maxpkt{mp}", make_block(coll_big, mp))
             yield ("GetDescriptorHandlerDistributed", f"big_maxpkt{mp}", make_distributed(coll_big, mp))
